@@ -680,7 +680,12 @@ def run_sessions(driver, sessions):
     z = zygote()
     z["conn"].send(sessions)
     lines = [case_line(c) for s_ in sessions for c in s_["session"]]
-    mods = [parse_model(l) for l in lean_batch(driver, lines)]
+    # sessions of plain steps also go through the model's own session loop (`runSession`, driver command `session`)
+    plain = [s_ for s_ in sessions if not any(is_x(c) for c in s_["session"])]
+    lines += ["session " + " ".join(case_line(c)[4:] for c in s_["session"]) for s_ in plain]
+    raw = lean_batch(driver, lines)
+    mods = [parse_model(l) for l in raw[:len(raw) - len(plain)]]
+    sess_lines = dict(zip(map(id, plain), raw[len(raw) - len(plain):]))
     st, obs = z["conn"].recv()
     if st != "ok":
         raise RuntimeError("session runner: " + obs)
@@ -688,6 +693,11 @@ def run_sessions(driver, sessions):
     i = 0
     for s_, o in zip(sessions, obs):
         n = len(s_["session"])
+        if id(s_) in sess_lines:
+            want = "|".join(f"{m['out']}:{m['writes']}:{m['reads']}:{m['elapsed']}" for m in mods[i:i + n])
+            if sess_lines[id(s_)] != want:
+                # `session_step` proves this cannot happen; the driver or the harness would be broken
+                raise RuntimeError(f"model: runSession gives {sess_lines[id(s_)]}, the requests alone give {want}")
         out.append((o, mods[i:i + n]))
         i += n
     return out
